@@ -49,6 +49,11 @@ structure HCand where
   at the buffer (`top()`): those lines are written BEFORE the action, so another goroutine's Enqueue can still land
   in front of the walk. `some allowance` until the `cycleBegin` label is placed. -/
   pendingBegin : Option Nat := none
+  /-- v2 raises a batch from inside the cycle (`processBatch`, which emits the batch event) BEFORE it advances the
+  buffer cursor (`remove()`): the event line is written in the middle of the model's atomic `cycleStep`, so an
+  Enqueue logged after it can still land in front of the cursor. The line is therefore owed first and the step
+  placed after it. -/
+  pendingStep : Bool := false
 deriving DecidableEq, Hashable
 
 def costOf (sc : HScn) (cd : HCand) (obj : Nat) : Nat :=
@@ -109,7 +114,9 @@ def loopVisible (sc : HScn) (cd : HCand) : List HCand :=
    else []) ++
   (match step sc.c s .cycleStep with
    | some s' => if s'.nextBatch == s.nextBatch + 1 then
-       [{ cd with st := normSt s', owed := [s!"ev:batch:{objsStr ((s'.batches.getLast?.map (fun b => b.ops.map (·.obj))).getD [])}"] }] else []
+       let line := s!"ev:batch:{objsStr ((s'.batches.getLast?.map (fun b => b.ops.map (·.obj))).getD [])}"
+       if v2 then [{ cd with owed := [line], pendingStep := true }]
+       else [{ cd with st := normSt s', owed := [line] }] else []
    | none => []) ++
   (match s.loop with
    | .sweep acc => acc.openB.flatMap fun p => fire (.sweepOne p.1) (fun _ => [s!"ev:batch:{objsStr (p.2.map (·.obj))}"])
@@ -136,6 +143,7 @@ def hiddenSucc (sc : HScn) (cd : HCand) : List HCand :=
   -- the processing loop: one action at a time; while it still owes log lines it does nothing else
   let loopSteps :=
     if !cd.owed.isEmpty then [] else
+    if cd.pendingStep then ((stepC sc cd .cycleStep).map fun c => { c with pendingStep := false }).toList else
     match cd.pendingBegin with
     | some a => ((stepC sc cd (.cycleBegin a)).map fun c => { c with pendingBegin := none }).toList
     | none =>
@@ -192,7 +200,7 @@ def quiescent (sc : HScn) (cd : HCand) : Bool :=
    | _ => true) &&
   (!tickersRunning s || (decide (s.now < s.nextF) && decide (s.now < s.nextC) && decide (s.now < s.nextA))) &&
   (unfinished s).all (fun b => !b.cbDone && decide (s.now < b.deadline)) &&
-  cd.pendingPause == 0 && cd.owed.isEmpty && cd.pendingBegin.isNone
+  cd.pendingPause == 0 && cd.owed.isEmpty && cd.pendingBegin.isNone && !cd.pendingStep
 
 def nextDeadline (s : St) : Option Nat :=
   let ds := (if tickersRunning s then [s.nextF, s.nextC, s.nextA] else []) ++
